@@ -89,7 +89,7 @@ func c18Receivers(tier string) []c18Recv {
 		{mtNull, []*mval{vNull()}},
 		{mtRange, []*mval{vRange(0, 0), vRange(0, 1), vRange(0, 3), vRange(3, 0)}},
 		{mtList(mtInt), []*mval{vL(), vL(vI(1)), vL(vI(3), vI(1), vI(2))}},
-		{mtList(mtStr), []*mval{vL(), vL(vS("a")), vL(vS("b"), vS("a"), vS("c"))}},
+		{mtList(mtStr), []*mval{vL(), vL(vS("a")), vL(vS("b"), vS("a"), vS("c")), vL(vS(""), vS("b"), vS("")), vL(vS(""), vS(""), vS("x")), vL(vS(""))}},
 		{mtList(mtFloat), []*mval{vL(), vL(vF(1.5)), vL(vF(2.5), vF(1.5), vF(2.0))}},
 		{mtList(mtList(mtInt)), []*mval{vL(), vL(vL()), vL(vL(vI(1)), vL(), vL(vI(1), vI(2)))}},
 		{mtList(mtRange), []*mval{vL(), vL(vRange(0, 2))}},
